@@ -17,12 +17,17 @@ import (
 )
 
 func init() {
-	register("C20", false, func(r *Run, prog *Program) {
+	register("C20", true, func(r *Run, prog *Program) {
 		g := loadGrammars(r, prog)
 		if g == nil {
 			return
 		}
 		checkC20(r, prog, g)
+		// the table is interpreted by the engine that follows it in grammar.go: the invariants of that engine the table's
+		// meaning rests on (a reference means the rule of that name, a class means unicode's table of that name, …)
+		r.importing = "C15"
+		checkEngineInvariants(r, prog, "c15")
+		r.importing = ""
 	})
 	register("C15", true, func(r *Run, prog *Program) {
 		g := loadGrammars(r, prog)
@@ -53,6 +58,10 @@ func init() {
 		checkDoubleNegation(r, ga)
 		r.importing = "C19"
 		checkSelectorString(r, prog, "c19") // the text of a bare (selector-shaped) value is the selector's rendering
+		if a15 := FindAnchors(prog); len(a15.Missing) == 0 {
+			r.importing = "C10"
+			checkCreateEvaluator(r, prog, a15, ga, "c10") // CreateEvaluator accepts exactly what the parser accepts: it parses the text it is given, unmodified
+		}
 		r.importing = ""
 		r.Technique = "translation validation peg↔table (imported from C20) + PEG well-formedness analyses on the rule table (undefined/duplicate/unreachable rules, left recursion, nullable repetition, label scope), entry anchoring, dispatch exhaustiveness, result-type inference for action type assertions, keyword/identifier boundary via FOLLOW sets"
 		r.Explain = "Decides the structural clauses of C15: the table is the grammar (C20's comparison), the table is a well-formed PEG whose recursive-descent interpretation is defined and terminates, both entry alternatives are anchored at end of input and the entry point / invalid-UTF-8 / recover options are never set by module code, every node type of the table is dispatched by parseExpr, every single-value type assertion in an action is satisfied by the inferred dynamic types of the label it reads on error-free runs, and no keyword literal can be directly followed by an identifier character. NOT decided: that pigeon's combinator engine interprets the table as PEG, and accept/reject on concrete strings against an independent recogniser."
@@ -79,6 +88,8 @@ func init() {
 		if a16 := FindAnchors(prog); len(a16.Missing) == 0 {
 			r.importing = "C10"
 			checkCreateEvaluator(r, prog, a16, ga, "c10") // what is evaluated is the parse of exactly the text given, every time
+			r.importing = "C13"
+			checkASTIntegrity(r, prog, a16, "c13") // and the tree evaluated is the tree parsed: literals are not rewritten afterwards
 		}
 		r.importing = ""
 		r.Technique = "grammar analyses on the rule table: operator-exposure stratification, double-negation fold (typed AST of the action), strconv.Unquote of the whole match, choice shadowing by FIRST-set overlap, keyword boundary by FOLLOW sets"
